@@ -16,6 +16,9 @@ pub struct C09;
 pub enum Login {
     AdminOk,
     AdminWrongPassword,
+    /// the right user name with something that is almost the password: "prefix" (its first half), "empty" (no
+    /// password at all), "extended" (the password followed by more text), "case" (upper-cased)
+    AdminAlmostPassword { how: String },
     DbToken,
     WrongToken,
     UnknownDb,
@@ -121,7 +124,13 @@ fn gen(rng: &mut Rng) -> Program {
     if rng.chance(4, 5) {
         steps.push(Step::Login(match rng.below(10) {
             0 | 1 => Login::AdminOk,
-            2 => Login::AdminWrongPassword,
+            2 => {
+                if rng.chance(1, 2) {
+                    Login::AdminWrongPassword
+                } else {
+                    Login::AdminAlmostPassword { how: ["prefix", "empty", "extended", "case"][rng.below(4) as usize].to_string() }
+                }
+            }
             3 | 4 => Login::DbToken,
             5 => Login::WrongToken,
             6 => Login::UnknownDb,
@@ -139,7 +148,13 @@ fn gen(rng: &mut Rng) -> Program {
         steps.push(match rng.below(12) {
             0 => Step::Login(match rng.below(7) {
                 0 => Login::AdminOk,
-                1 => Login::AdminWrongPassword,
+                1 => {
+                    if rng.chance(1, 2) {
+                        Login::AdminWrongPassword
+                    } else {
+                        Login::AdminAlmostPassword { how: ["prefix", "empty", "extended", "case"][rng.below(4) as usize].to_string() }
+                    }
+                }
                 2 => Login::DbToken,
                 3 => Login::WrongToken,
                 4 => Login::UnknownDb,
@@ -164,7 +179,13 @@ fn gen(rng: &mut Rng) -> Program {
 fn gen_login(rng: &mut Rng) -> Login {
     match rng.below(10) {
         0..=2 => Login::AdminOk,
-        3 => Login::AdminWrongPassword,
+        3 => {
+            if rng.chance(1, 2) {
+                Login::AdminWrongPassword
+            } else {
+                Login::AdminAlmostPassword { how: ["prefix", "empty", "extended", "case"][rng.below(4) as usize].to_string() }
+            }
+        }
         4 | 5 => Login::DbToken,
         6 => Login::WrongToken,
         7 | 8 => Login::UserToken,
@@ -327,8 +348,18 @@ fn cred_label(is_admin: bool, selected: &Option<Option<String>>, perms: &Option<
     }
 }
 
+fn almost_password(how: &str) -> String {
+    match how {
+        "prefix" => format!("auth {} {}", USER, &PWD[..PWD.len() / 2]),
+        "empty" => format!("auth {}", USER),
+        "extended" => format!("auth {} {}-and-more", USER, PWD),
+        _ => format!("auth {} {}", USER, PWD.to_uppercase()),
+    }
+}
+
 fn login_line(l: &Login) -> String {
     match l {
+        Login::AdminAlmostPassword { how } => almost_password(how),
         Login::AdminOk => format!("auth {} {}", USER, PWD),
         Login::AdminWrongPassword => format!("auth {} nope", USER),
         Login::DbToken => "use-db d tok".to_string(),
@@ -614,6 +645,7 @@ fn execute(prog: Program, cluster: bool) -> Outcome {
                 let (cmdline, ok) = match l {
                     Login::AdminOk => (format!("auth {} {}", USER, PWD), true),
                     Login::AdminWrongPassword => (format!("auth {} nope", USER), false),
+                    Login::AdminAlmostPassword { how } => (almost_password(how), false),
                     Login::DbToken => ("use-db d tok".to_string(), true),
                     Login::WrongToken => ("use-db d nope".to_string(), false),
                     Login::UnknownDb => ("use-db nosuch tok".to_string(), false),
@@ -638,7 +670,7 @@ fn execute(prog: Program, cluster: bool) -> Outcome {
                         ));
                     }
                 }
-                if matches!(l, Login::AdminWrongPassword) && s.client.is_admin_auth() != is_admin {
+                if matches!(l, Login::AdminWrongPassword | Login::AdminAlmostPassword { .. }) && s.client.is_admin_auth() != is_admin {
                     out.violations.push(Violation::new("auth-state-wrong", "wrong-password".to_string(), format!("step #{} `{}`: admin flag is {}", i, cmdline, s.client.is_admin_auth())));
                 }
                 // a db-token login after a user-token login keeps the user name in the code (selection
